@@ -40,7 +40,7 @@ let accessors (m:z list) (n:int) : string =
   let it = get (itr_all m) in
   Printf.sprintf " S=%s N=%d T=%s G=%s I=%s%s" (zs s) na (hex_of_bytes types)
     (if args = [] then "-" else String.concat "," (List.map show_av args))
-    (if it = [] then "-" else String.concat "," (List.map (fun (t, v) -> String.make 1 (Char.chr (zi t)) ^ show_av v) it))
+    (if it = [] then "-" else String.concat "," (List.map (fun (t, v) -> Printf.sprintf "%02x:" (zi t) ^ show_av v) it))
     (if n > 0 then (if inside then " P=ok" else " P=out") else "")
 
 let rec parse_tree (s:string) (i:int ref) : elem =
